@@ -44,6 +44,10 @@ CLAIMED = {
             "bounded-exhaustive enumeration of (signature, callable kind, call shapes, host, changer sequence); bodies print their locals and CPython runs before/after; expected output derived structurally",
             "8 signature shapes (defaults, *args, **kw) x 5 callable kinds (function, method on a name, method on an attribute chain, classmethod, constructor) x 3 hosts x every valid call shape (positional/keyword/default/*seq/extra positional/extra keyword) at 1-2 sites x every single changer (thorough: ordered pairs) go through the real ChangeSignature; every function body prints its sorted locals and the result must equal the recorded output with the removed name dropped / the added name bound.",
             "argument values are constants; expected bindings derived from the recorded run; a request whose resulting signature is illegal must be refused", "3/C06"),
+    "C07": ("exploration",
+            "bounded-exhaustive enumeration of (import block, usage pattern, target location, action, preferences) with CPython execution of the module and of a star-importing client before/after, plus idempotence",
+            "Import blocks of <=2 (3) statements over 25 forms (plain, dotted, aliased, from, multi-name, parenthesised, star, relative at two levels, __future__) x per-statement usage (unused, module level, in a function, only in __all__, class keyword, base class, default argument, decorator) x target in the project root / a package / a sub-package x the 5 ImportOrganizer actions x preference sets are run through the real code; the target module and a client must print the same, and applying the action again must change nothing.",
+            "library modules define uniquely valued names; re-exports are protected only when listed in __all__; bounded block size", "3/C07"),
 }
 
 PENDING_REASON = "check not built yet in this session (see DESIGN.md section 8 build order); nothing is claimed for it"
